@@ -32,13 +32,10 @@ theorem CompHyp.foldTyped {W : World} {chain : List FieldRef} {comp : Component}
 
 theorem CompHyp.foldNoTrigger {W : World} {chain : List FieldRef} {comp : Component}
     (h : CompHyp W chain comp) {f : Fold} (hf : f ∈ comp.folds) (g : W.G) :
-    tagKeysDistinct f.imports = true ∧
-    (f.post.isEmpty = true ∨ (optionalVertices comp.edges).contains f.fromVid = false) ∧
     ∀ pf ∈ f.post, filterNoTrigger W.D W.args ⟨"Int", [false]⟩ pf = true := by
   have := h.nt g
-  simp only [ntLocal, Bool.and_eq_true, List.all_eq_true, Bool.or_eq_true, Bool.not_eq_true'] at this
-  obtain ⟨⟨h1, h2⟩, h3⟩ := this.2 f hf
-  exact ⟨h1, h2, h3⟩
+  simp only [ntLocal, Bool.and_eq_true, List.all_eq_true] at this
+  exact this.2 f hf
 
 theorem collect_mem {computed : List Ctx} {maxL minL : Option Nat} {es : List Ctx}
     (h : collectFoldElements computed maxL minL = some es) : ∀ c ∈ es, c ∈ computed := by
@@ -65,7 +62,7 @@ theorem foldFinish_safe (W : World) {comp : Component} {chain : List FieldRef} {
       (foldFinish W.env comp f lim c computed) := by
   simp only [stageWf, Bool.and_eq_true, Bool.not_eq_true', List.contains_eq_mem,
     decide_eq_true_eq, decide_eq_false_iff_not, List.all_eq_true] at hwf
-  obtain ⟨⟨⟨⟨⟨⟨⟨⟨_, _⟩, _⟩, hrec⟩, hfromSome⟩, hfresh⟩, himp⟩, hpost⟩, hkeys⟩ := hwf
+  obtain ⟨⟨⟨⟨⟨⟨⟨⟨⟨_, _⟩, _⟩, hrec⟩, hfromSome⟩, hfresh⟩, himp⟩, hdistinct⟩, hpost⟩, hkeys⟩ := hwf
   have hty := h.foldTyped hf
   cases hfromV : comp.vertex? f.fromVid with
   | none => simp [hfromV] at hfromSome
@@ -131,7 +128,7 @@ theorem foldFinish_safe (W : World) {comp : Component} {chain : List FieldRef} {
       simp [ht]
     refine Safe.bind (removeTags_safe W f.imports
       { c with foldCounts := c.foldCounts ++ [(f.eid, elems.map List.length)] }
-      (fun g => (h.foldNoTrigger hf g).1) hpresent) ?_
+      hdistinct hpresent) ?_
     intro c2 ⟨hs2, hact2, htags2⟩
     have htagsOK : TagsOK chain c2.importedTags := by
       intro r hr
@@ -163,15 +160,14 @@ theorem foldFinish_safe (W : World) {comp : Component} {chain : List FieldRef} {
       simp only [CountsOK, hs2.2.2.1, List.map_append, List.map_cons, List.map_nil]
       rw [hcore.counts]
     refine Safe.bind (applyPostFilters_safe W h.so hfromV hvt f.post hpost hpostTy
-      (fun g => (h.foldNoTrigger hf g).2.2) hvpre hcnt2 ?_) ?_
-    · intro g hne
-      rcases (h.foldNoTrigger hf g).2.1 with hemp | hnopt
-      · simp [List.isEmpty_iff] at hemp; exact absurd hemp hne
-      · cases helm : elems with
-        | some es => rfl
-        | none =>
-          have := hoptNone (hnoneIff helm)
-          rw [hnopt] at this; cases this
+      (fun g => h.foldNoTrigger hf g) hvpre hcnt2 ?_) ?_
+    · -- the slot holds `None` only when the fold's source vertex is missing, and that is the active one
+      intro hnone
+      rw [hact2]
+      apply hnoneIff
+      cases helm : elems with
+      | none => rfl
+      | some es => rw [helm] at hnone; cases hnone
     · intro o ho
       cases o with
       | none => simp
@@ -300,7 +296,7 @@ theorem computeFold_safe (W : World) (fuel : Nat)
   have hwf0 := hwf
   simp only [stageWf, Bool.and_eq_true, Bool.not_eq_true', List.contains_eq_mem,
     decide_eq_true_eq, decide_eq_false_iff_not, List.all_eq_true] at hwf
-  obtain ⟨⟨⟨⟨⟨⟨⟨⟨_, _⟩, _⟩, hrec⟩, hfromSome⟩, hfresh⟩, himp⟩, hpost⟩, hkeys⟩ := hwf
+  obtain ⟨⟨⟨⟨⟨⟨⟨⟨⟨_, _⟩, _⟩, hrec⟩, hfromSome⟩, hfresh⟩, himp⟩, hdistinct⟩, hpost⟩, hkeys⟩ := hwf
   have hty := h.foldTyped hf
   simp only [computeFold]
   cases hfromV : comp.vertex? f.fromVid with
@@ -425,7 +421,7 @@ theorem runStages_safe (W : World) (fuel : Nat)
       have hs0 := hs
       simp only [stageWf, Bool.and_eq_true, Bool.not_eq_true', List.contains_eq_mem,
         decide_eq_true_eq, decide_eq_false_iff_not, beq_eq_false_iff_ne] at hs
-      obtain ⟨⟨⟨⟨⟨⟨⟨⟨hv1, hv2⟩, hv3⟩, _⟩, _⟩, _⟩, _⟩, _⟩, _⟩ := hs
+      obtain ⟨⟨⟨⟨⟨⟨⟨⟨⟨hv1, hv2⟩, hv3⟩, _⟩, _⟩, _⟩, _⟩, _⟩, _⟩, _⟩ := hs
       have hf : f ∈ comp.folds := by
         rw [hfolds]; simp
       simp only [runStages, checkVisited_ok hv1 hv2 hv3, R.bind_ok']
